@@ -491,6 +491,8 @@ fn main() {
         "batch" => run_batch(&cfg),
         "codec" => codec::run_codec(&cfg),
         "adversarial" => codec::run_adversarial(&cfg),
+        "odd_statement" => codec::run_odd_statement(&cfg),
+        "ctor" => codec::run_ctor(&cfg),
         other => json!({"error": format!("unknown scenario {}", other)}),
     };
     println!("{}", json!({"flavour": env::FLAVOUR, "config": cfg, "out": out, "core": env::dump()}));
